@@ -40,8 +40,8 @@ type profile struct {
 }
 
 var profiles = map[string]profile{
-	"C01": {name: "C01", wIndex: 1, wFilter: 1, wSnapshot: 1, wReplica: 1, wRollback: 1, wBulk: 3, wDropCol: 1, maxSteps: 30},
-	"C02": {name: "C02", wIndex: 2, wFilter: 1, wKey: 1, wRollback: 6, wFailIns: 2, wBulk: 1, wObserve: 4, wTrigger: 1, maxSteps: 24},
+	"C01": {name: "C01", wIndex: 1, wFilter: 1, wKey: 1, wSnapshot: 1, wReplica: 1, wRollback: 1, wBulk: 3, wDropCol: 1, maxSteps: 30},
+	"C02": {name: "C02", wIndex: 2, wFilter: 1, wKey: 2, wRollback: 6, wFailIns: 2, wBulk: 1, wObserve: 4, wTrigger: 1, maxSteps: 24},
 	"C03": {name: "C03", wIndex: 8, wFilter: 4, wSnapshot: 2, wReplica: 2, wRollback: 1, wBulk: 2, maxSteps: 30},
 	"C04": {name: "C04", wIndex: 4, wFilter: 12, wBulk: 3, wRollback: 1, maxSteps: 26},
 	"C06": {name: "C06", wIndex: 2, wReplica: 8, wKey: 1, wSort: 1, wBulk: 2, wRollback: 1, maxSteps: 30},
@@ -330,7 +330,7 @@ func (g *gen) setup() {
 		g.hasRep = true
 		g.emit(fmt.Sprintf("new r cap=%d logger=none", caps[r.Intn(len(caps))]))
 	}
-	useKey := g.p.wKey >= 100 || (g.p.wKey > 0 && r.Intn(4) == 0)
+	useKey := g.p.wKey >= 100 || (g.p.wKey > 0 && r.Intn(4) < g.p.wKey)
 	if useKey {
 		g.addCol(genCol{"k", "key", ""})
 		g.keys = []string{hexOf([]byte("a")), hexOf([]byte("b")), hexOf([]byte("c")), hexOf([]byte("d")), hexOf([]byte("e")), hexOf([]byte("f"))}
@@ -341,6 +341,35 @@ func (g *gen) setup() {
 	}
 	if g.p.wSort >= 100 {
 		g.addCol(genCol{"name", "string", []string{"", "concat"}[r.Intn(2)]})
+	}
+	// profiles about computed columns: a string column whose merges change the length, and one
+	// computed column per data column, so that every kind's Apply/Swap path feeds an index / trigger
+	if g.p.name == "C03" || g.p.name == "C19" || g.p.name == "C16" {
+		g.addCol(genCol{"sc", "string", "concat"})
+		if r.Intn(2) == 0 {
+			g.addCol(genCol{"ni", "int", []string{"", "dbl"}[r.Intn(2)]})
+		}
+		for _, c := range append([]genCol(nil), g.cols...) {
+			switch g.p.name {
+			case "C03":
+				if c.kind != "record" && r.Intn(3) > 0 {
+					g.addIndexOn(c)
+				}
+			case "C19":
+				if r.Intn(3) > 0 {
+					g.addTriggerOn(c)
+				}
+			case "C16":
+				if c.kind == "string" && c.name != "name" {
+					name := fmt.Sprintf("s%d", len(g.sorts))
+					g.emit(fmt.Sprintf("p sortindex %s %s", name, c.name))
+					if g.hasRep {
+						g.emit(fmt.Sprintf("r sortindex %s %s", name, c.name))
+					}
+					g.sorts = append(g.sorts, name)
+				}
+			}
+		}
 	}
 	// cheap multi-chunk population: rows around the 16K-chunk edges, inserted through Replay
 	if r.Intn(3) == 0 {
@@ -420,7 +449,21 @@ func (g *gen) addIndex() {
 	if len(cands) == 0 {
 		return
 	}
-	c := cands[g.r.Intn(len(cands))]
+	g.addIndexOn(cands[g.r.Intn(len(cands))])
+}
+
+func (g *gen) addTriggerOn(c genCol) {
+	name := fmt.Sprintf("t%d", g.nIdx)
+	g.nIdx++
+	g.emit(fmt.Sprintf("p trigger %s %s", name, c.name))
+	if g.hasRep {
+		g.emit(fmt.Sprintf("r trigger %s %s", name, c.name))
+	}
+	g.trigs = append(g.trigs, name)
+	g.feat("trigger")
+}
+
+func (g *gen) addIndexOn(c genCol) {
 	name := fmt.Sprintf("i%d", g.nIdx)
 	g.nIdx++
 	line := fmt.Sprintf("index %s %s %s", name, c.name, g.ruleFor(c))
@@ -989,10 +1032,13 @@ func genStoreCase(r *rand.Rand, p profile, rep *Report, id int) Case {
 	defer g.impl.Close()
 	g.setup()
 	steps := 6 + r.Intn(p.maxSteps)
-	if p.wSort >= 100 {
-		g.addSort()
+	if p.wSort >= 100 && r.Intn(2) == 0 {
+		g.addSort() // index before the data; otherwise it is created mid-history, after the data
 	}
 	for i := 0; i < steps && !g.dead; i++ {
+		if p.wSort >= 100 && len(g.sorts) == 0 && i >= steps/2 {
+			g.addSort()
+		}
 		total := 30 + p.wIndex + p.wFilter + p.wSort/20 + p.wTrigger/10 + p.wSnapshot + p.wBulk + 3
 		x := r.Intn(total)
 		switch {
